@@ -220,7 +220,7 @@ func runC12(a *A) {
 		}
 	})
 	a.Rule("flow/fallback-discipline", 6, func() { a.ruleFastFallback() })
-	a.Rule("ordtab/lossless-coercion", 5, func() { a.ruleLossless() })
+	a.Rule("ordtab/lossless-coercion", 3, func() { a.ruleLossless() })
 	a.Rule("flow/error-rejects", 3, func() {
 		fn := a.Method("condition", "ExprCondition", "Evaluate")
 		n := 0
@@ -294,8 +294,21 @@ func (a *A) ruleFastFallback() {
 	fcT := a.Named("condition", "fastCompare")
 	isStr := a.FieldOf(fcT, "isString")
 	toF := a.Func("condition", "toFloat64Fast")
-	for _, name := range []string{"eval", "evalMap"} {
-		fn := a.Method("condition", "fastCompare", name)
+	// every method of fastCompare that reports (result, ok): the two entry points and whatever they
+	// share the comparison with
+	var methods []*ssa.Function
+	for _, fn := range a.ModFuncs {
+		if fn.Blocks == nil || fn.Signature.Recv() == nil || !types.Identical(derefT(fn.Signature.Recv().Type()), types.Type(fcT)) {
+			continue
+		}
+		if res := fn.Signature.Results(); res.Len() == 2 && isBool(res.At(0).Type()) && isBool(res.At(1).Type()) {
+			methods = append(methods, fn)
+		}
+	}
+	sort.Slice(methods, func(i, j int) bool { return fname(methods[i]) < fname(methods[j]) })
+	answers := 0
+	for _, fn := range methods {
+		entry := fn.Name() == "eval" || fn.Name() == "evalMap"
 		// every return with ok == true
 		n := 0
 		for _, b := range fn.Blocks {
@@ -332,8 +345,9 @@ func (a *A) ruleFastFallback() {
 				"the shortcut answers only after the value passed the type test matching the literal's kind",
 				"the shortcut answers (ok=true) without a successful type test matching the literal's kind: values of another type would be decided by the shortcut instead of the general engine")
 		}
-		if n == 0 {
-			a.Und(fname(fn)+"#answers-only-on-type-match", fn.Pos(), "no return with ok=true found")
+		answers += n
+		if !entry {
+			continue
 		}
 		// missing or NULL field -> ok=false
 		for _, cs := range []string{"missing", "null"} {
@@ -365,6 +379,9 @@ func (a *A) ruleFastFallback() {
 			}
 			a.Check(bad == "", fmt.Sprintf("%s#%s-falls-back", fname(fn), cs), fn.Pos(), "a "+cs+" field makes the shortcut fall back (ok=false)", "a "+cs+" field is decided by the shortcut: "+bad)
 		}
+	}
+	if answers == 0 {
+		a.Und("(*condition.fastCompare)#answers-only-on-type-match", token.NoPos, "no return with ok=true found in the methods of fastCompare")
 	}
 	// compound: any part not ok -> whole falls back
 	fn := a.Method("condition", "fastCompound", "eval")
